@@ -56,7 +56,7 @@ theorem WF.init {e : Ep} (h : WF e) {tag : Nat} (ht : tag < 4294967296) (itsn rw
                 tx := { e.tx with ssthresh := rwnd } } := by
   refine ⟨⟨h.net.lp, h.net.rp, ht, h.net.ltag, h.net.inMax, h.net.outCnt⟩, h.ch,
     ⟨h.tx.sent, h.tx.out, h.tx.fwd, h.tx.fwdN, h.tx.seq, h.tx.tsn⟩, ⟨?_⟩, h.rcReq, tsn_minus_one_range _,
-    fun _ => rfl⟩
+    fun _ => rfl, h.nr⟩
   intro r hr
   cases hr
   refine ⟨tsn_minus_one_range _, ?_, ?_⟩
@@ -70,7 +70,7 @@ theorem WF.init {e : Ep} (h : WF e) {tag : Nat} (ht : tag < 4294967296) (itsn rw
 theorem WF.counts {e : Ep} (h : WF e) (outs ins : Nat) :
     WF { e with inboundCount := min outs e.inboundMax, outboundCount := min e.outboundCount ins } :=
   ⟨⟨h.net.lp, h.net.rp, h.net.rtag, h.net.ltag, h.net.inMax, by have := h.net.outCnt; simp only; omega⟩,
-   h.ch, h.tx, h.rx, h.rcReq, h.rcResp, h.sack⟩
+   h.ch, h.tx, h.rx, h.rcReq, h.rcResp, h.sack, h.nr⟩
 
 theorem Acc.frame {e e' : Ep} (ha : Acc 0 e.rwnd e.inStreams) (hr : e'.rwnd = e.rwnd) (hi : e'.inStreams = e.inStreams) :
     Acc 0 e'.rwnd e'.inStreams := by rw [hr, hi]; exact ha
